@@ -172,6 +172,20 @@ def _derefs(expr, tracked: typing.Callable[[str], typing.Optional[str]], facts: 
         why = tracked(p)
         if why and p not in fs:
           out.append((e, p, why))
+    # arithmetic / ordering on a value that may be None raises TypeError
+    operands = []
+    if isinstance(e, ast.BinOp) and isinstance(e.op, (ast.Add, ast.Sub, ast.Mult, ast.Div, ast.FloorDiv, ast.Mod)):
+      operands = [e.left, e.right]
+    elif isinstance(e, ast.Compare) and any(isinstance(o, (ast.Lt, ast.LtE, ast.Gt, ast.GtE)) for o in e.ops):
+      operands = [e.left] + list(e.comparators)
+    elif isinstance(e, ast.UnaryOp) and isinstance(e.op, ast.USub):
+      operands = [e.operand]
+    for o in operands:
+      p = path_of(o)
+      if p is not None and not p.endswith(")"):
+        why = tracked(p)
+        if why and p not in fs:
+          out.append((e, p, why + "; used in arithmetic / ordering"))
     for ch in ast.iter_child_nodes(e):
       if isinstance(ch, ast.expr) or isinstance(ch, (ast.keyword, ast.comprehension, ast.Starred)):
         walk(ch, fs)
